@@ -78,6 +78,8 @@ type MemStore struct {
 	Skew time.Duration
 	// OwnerModules builds the owner module list for a TO2 session once devmod completed.
 	OwnerModules func(ctx context.Context, guid protocol.GUID, devmod serviceinfo.Devmod, supported []string) []NamedModule
+	// AllModules runs every owner module, including those the device did not list in devmod:modules.
+	AllModules bool
 	// Stamp, if set, supplies a position marker (e.g. the index of the HTTP exchange being served) for journal entries.
 	Stamp func() int
 	// invalidated tokens (kept to tell "never issued" from "invalidated" in oracles)
@@ -646,6 +648,10 @@ func (m *msm) NextModule(ctx context.Context) (bool, error) {
 	var list []NamedModule
 	if m.s.OwnerModules != nil {
 		for _, nm := range m.s.OwnerModules(ctx, guid, devmod, supported) {
+			if m.s.AllModules {
+				list = append(list, nm)
+				continue
+			}
 			for _, sup := range supported {
 				if sup == nm.Name {
 					list = append(list, nm)
